@@ -60,7 +60,7 @@ func main() {
 	work := flag.String("work", "", "work directory for SMT files")
 	fnFilter := flag.String("fn", "", "only functions whose key contains this")
 	timeout := flag.Int("timeout", 0, "per-obligation timeout in seconds")
-	workers := flag.Int("workers", 6, "parallel obligations")
+	workers := flag.Int("workers", 14, "parallel obligations")
 	list := flag.Bool("list", false, "list contract blocks and exit")
 	verbose := flag.Bool("v", false, "verbose")
 	flag.Parse()
